@@ -755,6 +755,10 @@ func runGC(g *gcScen, p gcParams) *gcResult {
 	n.Close()
 	batches := rs.Batches()
 	res.batches = len(batches)
+	if i, what := commitSplit(batches); what != "" {
+		res.recs = append(res.recs, x.mk(&gcFail{class: "commit-split", phase: "run", what: what}, i, len(batches)))
+		return res
+	}
 	if p.backends() {
 		memDump := chainx.Dump(rs)
 		for _, name := range []string{"bolt", "level"} {
